@@ -125,6 +125,18 @@ pub fn main() {
             exit(miri_mode::run(seed, index, args.iter().any(|a| a == "--dump-only"), args.iter().any(|a| a == "--c18")));
         }
         "miri-spec" => exit(miri_mode::run_json(args.get(2).expect("miri-spec <json>"))),
+        "ref" => {
+            // fresh-process reference: spec on stdin, outcomes of one slot's operations on stdout
+            let slot: usize = args.get(2).and_then(|s| s.parse().ok()).expect("ref <slot>");
+            let mut text = String::new();
+            std::io::Read::read_to_string(&mut std::io::stdin(), &mut text).expect("stdin");
+            let spec: types::RunSpec = serde_json::from_str(&text).unwrap_or_else(|e| {
+                eprintln!("ref: cannot parse spec: {e}");
+                exit(2)
+            });
+            println!("{}", serde_json::to_string(&engine::ref_child(&spec, slot)).unwrap());
+            exit(0)
+        }
         "selfcheck" => exit(selfcheck()),
         other => {
             eprintln!("unknown command {other}");
@@ -151,7 +163,8 @@ pub fn replay_full(rf: &RunFile) -> (Option<engine::Violation>, Option<Vec<u16>>
             let _ = run_spec(&g.spec, Prop::C17, &RunOpts::default());
         }
     }
-    let r = run_spec(spec, prop, &RunOpts::default());
+    let ro = RunOpts { fresh_process: rf.kind.starts_with("process-history"), ..RunOpts::default() };
+    let r = run_spec(spec, prop, &ro);
     let trace = r.trace.clone();
     (r.violations.into_iter().find(|v| v.property == rf.property), Some(trace))
 }
